@@ -19,13 +19,30 @@ open IsoVerif.Gen IsoVerif.Model.C02 IsoVerif.Lemmas.C02 IsoVerif.Props.C02
 
 variable {F : Type} [DecidableEq F] {R : Type} [DecidableEq R]
 
+/-- a read listed (possibly several times) under model `f`: `cnt (dedup ts) f` is 1 -/
+theorem cnt_dedup (ts : List F) (f : F) : cnt (dedup ts) f = if f ∈ ts then 1 else 0 := by
+  rw [cnt_of_nodup (dedup ts) (nodup_dedup ts) f]
+  simp [mem_dedup]
+
+theorem cnt_pos_of_mem (ts : List F) (f : F) (h : f ∈ ts) : cnt ts f ≠ 0 := by
+  unfold cnt
+  have : 0 < ts.count f := List.count_pos_iff.mpr h
+  intro h0
+  have : ((ts.count f : Nat) : Rat) = ((0 : Nat) : Rat) := by simpa using h0
+  have := Rat.natCast_inj.mp this
+  omega
+
+theorem cnt_zero_of_not_mem (ts : List F) (f : F) (h : f ∉ ts) : cnt ts f = 0 := by
+  unfold cnt
+  rw [List.count_eq_zero.mpr h]; rfl
+
 /-- **forward_counts_sum**: the calls `forward_counts` makes on the counter contribute to model `f` exactly
-    `readModelWeight` per (model, read) incidence of `transcript_read_ids` – for every table of incidences and every
-    `read_assignment_counts`, consistent or not -/
+    `readModelWeight` per (model, read) listing of `transcript_read_ids` – for every table of listings and every
+    `read_assignment_counts`, consistent or not, with or without repeated listings -/
 theorem forward_counts_sum (s : CountingStrategy) (lvl : Level) (tr : List (F × List R)) (rc : List (R × Nat))
     (models : List F) (f : F) :
     ratSum ((forwardCounts tr rc models).map (fun e => contribution s lvl e f))
-      = ratSum ((incidences tr).map (fun p => if p.1 = f then readModelWeight s tr rc p.2 else 0)) := by
+      = ratSum ((incidences tr).map (fun p => if p.1 = f then readModelWeight s tr rc p.2 f else 0)) := by
   unfold forwardCounts
   rw [fcTranscripts_eq]
   obtain ⟨hout, hamb, _⟩ := fcInc_spec (incidences tr) rc ([] : List (R × List F)) ([] : List (Event F))
@@ -39,12 +56,13 @@ theorem forward_counts_sum (s : CountingStrategy) (lvl : Level) (tr : List (F ×
   obtain ⟨L2, hL2⟩ : ∃ L2, L2 = L.filter (fun p => ¬ countOf rc p.2 = 1) := ⟨_, rfl⟩
   rw [← hL2]
   obtain ⟨hnd, hkeys, hget⟩ := ambFold_spec L2 ([] : List (R × List F)) (by simp)
-  -- the ambiguous part, regrouped by incidence
-  have hambsum : ratSum ((ambFold [] L2).map ((fun e => contribution s lvl e f) ∘ fun p => Event.raw false p.2))
-      = ratSum (L2.map (fun p => if p.1 = f then docWeight s .ambiguous (modelsOf L2 p.2).length else 0)) := by
-    have h1 := ratSum_amb (ambFold [] L2) hnd (fun _ ts => cnt ts f * docWeight s .ambiguous ts.length)
-    have : (ambFold [] L2).map ((fun e => contribution s lvl e f) ∘ fun p => Event.raw false p.2)
-        = (ambFold [] L2).map (fun p => cnt p.2 f * docWeight s .ambiguous p.2.length) := by
+  -- the ambiguous part, regrouped by listing
+  have hambsum : ratSum ((ambFold [] L2).map ((fun e => contribution s lvl e f) ∘ fun p => Event.raw false (dedup p.2)))
+      = ratSum (L2.map (fun p => if p.1 = f then
+          docWeight s .ambiguous (dedup (modelsOf L2 p.2)).length / cnt (modelsOf L2 p.2) f else 0)) := by
+    have h1 := ratSum_amb (ambFold [] L2) hnd (fun _ ts => cnt (dedup ts) f * docWeight s .ambiguous (dedup ts).length)
+    have : (ambFold [] L2).map ((fun e => contribution s lvl e f) ∘ fun p => Event.raw false (dedup p.2))
+        = (ambFold [] L2).map (fun p => cnt (dedup p.2) f * docWeight s .ambiguous (dedup p.2).length) := by
       apply List.map_congr_left; intro p _; simp [contribution]
     rw [this, h1]
     rw [ratSum_partition L2 ((ambFold [] L2).map Prod.fst) hnd
@@ -54,14 +72,22 @@ theorem forward_counts_sum (s : CountingStrategy) (lvl : Level) (tr : List (F ×
     intro r _
     rw [hget r]
     simp only [ambGet, List.nil_append]
-    have : (L2.filter (fun p => p.2 = r)).map (fun p => if p.1 = f then docWeight s .ambiguous (modelsOf L2 p.2).length else 0)
-        = (L2.filter (fun p => p.2 = r)).map (fun p => if p.1 = f then docWeight s .ambiguous (modelsOf L2 r).length else 0) := by
+    have : (L2.filter (fun p => p.2 = r)).map (fun p => if p.1 = f then
+            docWeight s .ambiguous (dedup (modelsOf L2 p.2)).length / cnt (modelsOf L2 p.2) f else 0)
+        = (L2.filter (fun p => p.2 = r)).map (fun p => if p.1 = f then
+            docWeight s .ambiguous (dedup (modelsOf L2 r)).length / cnt (modelsOf L2 r) f else 0) := by
       apply List.map_congr_left
       intro p hp
       simp only [List.mem_filter, decide_eq_true_eq] at hp
       rw [hp.2]
     rw [this, ratSum_group]
-    rfl
+    have hm : (L2.filter (fun p => p.2 = r)).map Prod.fst = modelsOf L2 r := rfl
+    rw [hm, cnt_dedup]
+    by_cases hf : f ∈ modelsOf L2 r
+    · have hne := cnt_pos_of_mem _ _ hf
+      simp only [hf, if_true, Rat.one_mul]
+      rw [Rat.div_def, Rat.mul_comm, Rat.mul_assoc, Rat.inv_mul_cancel _ hne, Rat.mul_one]
+    · simp [hf, cnt_zero_of_not_mem _ _ hf, Rat.zero_mul]
   rw [hambsum]
   rw [ratSum_filter_split L (fun p => countOf rc p.2 = 1), ← hL2]
   congr 1
@@ -86,16 +112,48 @@ theorem forward_counts_sum (s : CountingStrategy) (lvl : Level) (tr : List (F ×
       · simp [hq]
     simp only [readModelWeight, hp'.2, if_false, hmodels, hL]
 
-/-- with consistent counts the weight is the documented one: 1/k for a read listed under k models (1 if k = 1,
-    0 if k ≥ 2 and the strategy does not count ambiguous reads) -/
+/-- **read_weight_per_model** (read-level reading of `readModelWeight`): a read `r` that is not assigned exactly once and
+    is listed under model `f` - once or several times - gives `f`, over all its listings together, exactly the documented
+    weight of a read shared by its DISTINCT models: 1 when `f` is its only model, 1/k for k models when ambiguous reads
+    are counted, else 0 -/
+theorem read_weight_per_model (s : CountingStrategy) (tr : List (F × List R)) (rc : List (R × Nat)) (r : R) (f : F)
+    (hc : countOf rc r ≠ 1) (hf : f ∈ modelsOf (incidences tr) r) :
+    ratSum (((incidences tr).filter (fun p => p.2 = r)).map
+        (fun p => if p.1 = f then readModelWeight s tr rc p.2 f else 0))
+      = docWeight s .ambiguous (dedup (modelsOf (incidences tr) r)).length := by
+  have : ((incidences tr).filter (fun p => p.2 = r)).map
+        (fun p => if p.1 = f then readModelWeight s tr rc p.2 f else 0)
+      = ((incidences tr).filter (fun p => p.2 = r)).map (fun p => if p.1 = f then
+          docWeight s .ambiguous (dedup (modelsOf (incidences tr) r)).length / cnt (modelsOf (incidences tr) r) f else 0) := by
+    apply List.map_congr_left
+    intro p hp
+    simp only [List.mem_filter, decide_eq_true_eq] at hp
+    simp [readModelWeight, hp.2, hc]
+  rw [this, ratSum_group]
+  have hm : ((incidences tr).filter (fun p => p.2 = r)).map Prod.fst = modelsOf (incidences tr) r := rfl
+  rw [hm, Rat.div_def, Rat.mul_comm, Rat.mul_assoc, Rat.inv_mul_cancel _ (cnt_pos_of_mem _ _ hf), Rat.mul_one]
+
+/-- with consistent counts (`read_assignment_counts[r]` = number of listings of `r`, which is what `save_assigned_read`
+    maintains: one per alignment record) a read assigned once has one model and weight 1, so the weight of every listing
+    is the documented one: the ambiguous weight for the number of DISTINCT models, shared evenly by the listings under
+    the same model -/
 theorem forward_counts_documented (s : CountingStrategy) (tr : List (F × List R)) (rc : List (R × Nat))
     (hc : CountsConsistent tr rc) (p : F × R) (hp : p ∈ incidences tr) :
-    readModelWeight s tr rc p.2 = docWeight s .ambiguous (modelsOf (incidences tr) p.2).length := by
+    readModelWeight s tr rc p.2 p.1
+      = docWeight s .ambiguous (dedup (modelsOf (incidences tr) p.2)).length / cnt (modelsOf (incidences tr) p.2) p.1 := by
   unfold readModelWeight
-  rw [hc p hp]
   split
   · rename_i h1
-    rw [h1]; simp [docWeight]
+    rw [hc p hp] at h1
+    have hmem : p.1 ∈ modelsOf (incidences tr) p.2 := by
+      simp only [modelsOf, List.mem_map, List.mem_filter, decide_eq_true_eq]
+      exact ⟨p, ⟨hp, rfl⟩, rfl⟩
+    match hm : modelsOf (incidences tr) p.2, h1, hmem with
+    | [x], _, hx =>
+      have : p.1 = x := by simpa using hx
+      subst this
+      simp [dedup, docWeight, cnt]
+      decide +kernel
   · rfl
 
 /-- **model_table_is_sum**: for any list of genes, the transcript-model counter fed by `forward_counts` runs without
@@ -105,7 +163,7 @@ theorem model_table_is_sum (s : CountingStrategy) (genes : List (GeneModels F R)
     ∃ st, run s Level.transcript (CState.init []) (genes.flatMap geneEvents) = some st ∧
       ∀ f v, (f, v) ∈ dumpRowsExact le oz st → (∃ g ∈ genes, f ∈ g.models) →
         v = ratSum (genes.map (fun g => ratSum ((incidences g.transcriptReads).map
-              (fun p => if p.1 = f then readModelWeight s g.transcriptReads g.readCounts p.2 else 0)))) := by
+              (fun p => if p.1 = f then readModelWeight s g.transcriptReads g.readCounts p.2 f else 0)))) := by
   have hnr : ∀ e ∈ genes.flatMap geneEvents, noRead e = true := by
     intro e he
     simp only [List.mem_flatMap] at he
@@ -150,14 +208,18 @@ theorem forward_counts_stats (g : GeneModels F R)
     | cons x xs ih => simp [hcls, ih]
   have z2 : ∀ (cls : Event F → Nat), (∀ ts : List F, ts ≠ [] → cls (Event.raw false ts) = 0) →
       natSum ((ambFold [] ((incidences g.transcriptReads).filter (fun p => ¬ countOf g.readCounts p.2 = 1))).map
-        (cls ∘ fun p => Event.raw false p.2)) = 0 := by
+        (cls ∘ fun p => Event.raw false (dedup p.2))) = 0 := by
     intro cls hcls
     generalize ambFold [] ((incidences g.transcriptReads).filter (fun p => ¬ countOf g.readCounts p.2 = 1)) = A at hne
     induction A with
     | nil => simp
     | cons x xs ih =>
       have hx := hne x (by simp)
-      simp [hcls _ hx, ih (fun p hp => hne p (by simp [hp]))]
+      have hx' : dedup x.2 ≠ [] := by
+        cases hxs : x.2 with
+        | nil => exact absurd hxs hx
+        | cons a as => simp [dedup]
+      simp [hcls _ hx', ih (fun p hp => hne p (by simp [hp]))]
   constructor
   · rw [z1 noFeatureClass (by intro t; rfl), z2 noFeatureClass (by
       intro ts hts
@@ -183,5 +245,30 @@ example : (run .with_ambiguous .transcript (CState.init []) (geneEvents demoGene
     = some ([(1, 3/2), (2, 1/2)], 1, 1, 3) := by decide +kernel
 example : (run .unique_only .transcript (CState.init []) (geneEvents demoGene)).map
       (fun st => dumpRowsExact natLe false st) = some [(1, 1)] := by decide +kernel
+
+/-! the failing input of the tree before the repair `fix_forward_dup` (audit probe C02_dupread_model.py): read 20 has
+    two alignment records, both listed under model 1 (`read_assignment_counts[20] = 2`); reads 10 and 11 once -/
+def dupGene : GeneModels Nat Nat :=
+  { transcriptReads := [(1, [10, 20, 20]), (2, [11])], readCounts := [(10, 1), (20, 2), (11, 1)], models := [1, 2] }
+
+example : CountsConsistent dupGene.transcriptReads dupGene.readCounts := by
+  unfold CountsConsistent; decide +kernel
+-- hypotheses of `read_weight_per_model` for read 20 / model 1, and its value: the weight of a read with ONE model
+example : countOf dupGene.readCounts 20 ≠ 1 ∧ 1 ∈ modelsOf (incidences dupGene.transcriptReads) 20 ∧
+    docWeight .unique_only .ambiguous (dedup (modelsOf (incidences dupGene.transcriptReads) 20)).length = 1 := by
+  decide +kernel
+example : geneEvents dupGene
+    = [Event.raw false [1], Event.raw false [2], Event.raw false [1], Event.unassigned 0, Event.confirm [1, 2]] := by rfl
+
+/-- **forward_dup_witness**: with the call list of the unrepaired tree (`forwardCountsOrig`: `[1, 1]` for read 20) the
+    read weighs 0 under `unique_only` - model 1 is printed with 1 instead of 2 - and `__ambiguous` is 1 although no read
+    is shared by two models; with the repaired call list the table is the read-level sum and `__ambiguous` is 0 -/
+theorem forward_dup_witness :
+    (run .unique_only .transcript (CState.init [])
+        (forwardCountsOrig dupGene.transcriptReads dupGene.readCounts dupGene.models)).map
+      (fun st => (dumpRowsExact natLe false st, (dump natLe false st).ambiguous)) = some ([(1, 1), (2, 1)], 1) ∧
+    (run .unique_only .transcript (CState.init []) (geneEvents dupGene)).map
+      (fun st => (dumpRowsExact natLe false st, (dump natLe false st).ambiguous)) = some ([(1, 2), (2, 1)], 0) := by
+  decide +kernel
 
 end IsoVerif.Props.C02Forward
